@@ -435,6 +435,14 @@ class Evo:
                         counts[x.id] = counts.get(x.id, 0) + 1
         for st in f.node.body:
             tgt = val = None
+            if isinstance(st, ast.Assign) and len(st.targets) == 2:
+                # y = self.a = <value>  /  self.a = y = <value>: the local names the attribute's new value
+                nm = [t for t in st.targets if isinstance(t, ast.Name)]
+                at = [t for t in st.targets if isinstance(t, ast.Attribute) and isinstance(t.value, ast.Name) and
+                      t.value.id == selfn]
+                if len(nm) == 1 and len(at) == 1 and counts.get(nm[0].id, 0) == 1:
+                    out[nm[0].id] = at[0].attr
+                continue
             if isinstance(st, ast.Assign) and len(st.targets) == 1:
                 tgt, val = st.targets[0], st.value
             elif isinstance(st, ast.AnnAssign) and st.value is not None:
@@ -448,6 +456,11 @@ class Evo:
                     isinstance(val, ast.Name) and counts.get(val.id, 0) == 1:
                 out[val.id] = tgt.attr
         return out
+
+    @property
+    def dim_field(self) -> str:
+        """Attribute that holds the dimension N (the backing field when numberOfFloatVariables is a property)."""
+        return self.backing_field('numberOfFloatVariables')
 
     def backing_field(self, name: str) -> str:
         """For a property of the class whose getter returns one attribute: that attribute; else the name."""
@@ -515,9 +528,10 @@ def _full_slice(k, selfk, nval=None) -> bool:
     lo, hi, st = k[1], k[2], k[3]
     none = ('const', 'None')
     zero = RF.const(0).key()
-    n_attr = ('attr', selfk, 'numberOfFloatVariables')
     ok_lo = lo == none or lo == zero or lo == ('const', '0')
-    ok_hi = hi == none or (isinstance(hi, tuple) and C.strip_versions(hi) == n_attr) or \
+    ok_hi = hi == none or (isinstance(hi, tuple) and len(C.strip_versions(hi)) == 3 and
+                           C.strip_versions(hi)[:2] == ('attr', selfk) and
+                           str(C.strip_versions(hi)[2]).endswith('numberOfFloatVariables')) or \
         (nval is not None and hi == nval.key())
     return ok_lo and ok_hi and st == none
 
@@ -675,6 +689,17 @@ def rule_affine(ctx: Ctx, rid: str, which=('P2D', 'D2P'), scope=None):
             got = C.strip_rf(got)
             got = C.strip_rf(C.subst_rf(got, {C.strip_versions(k): C.strip_versions(v)
                                              for k, v in C.init_equalities(ctx, e.cls, scope).items()}))
+            n_before = len(ctx.findings)
+            got2 = expand_coefficients(ctx, rid, fn, got, selfv)
+            if len(ctx.findings) > n_before:
+                done = True
+                continue            # the definitions of the coefficients are reported; nothing more to compare
+            if got2 is not got:
+                got = normalise_arrays(got2, C.strip_versions(key_of(selfv)))
+                got = C.strip_rf(got)
+                if i is not None:
+                    cands = {a for a in got.atoms() if isinstance(a, tuple) and a and a[0] == 'sub' and
+                             C.strip_versions(a[2]) == C.strip_versions(key_of(i))} - skip
             if i is None:
                 cands = {a for a in got.atoms() if a not in skip and isinstance(a, tuple) and a and
                          a[0] in ('attr', 'var', 'call', 'sub')}
@@ -696,7 +721,7 @@ def rule_affine(ctx: Ctx, rid: str, which=('P2D', 'D2P'), scope=None):
             out[w] = (got, y, i)
         if has_loop:
             # on the paths: exactly one coordinate loop, over range(N) / range(0, N) with N the dimension attribute
-            nk = C.strip_versions(key_of(attr(selfv, 'numberOfFloatVariables')))
+            nk = C.strip_versions(key_of(attr(selfv, e.dim_field)))
             zero_k = key_of(RF.const(0))
             loops_seen = set()
             okl = True
@@ -717,6 +742,218 @@ def rule_affine(ctx: Ctx, rid: str, which=('P2D', 'D2P'), scope=None):
             raise AnalysisError(f'{rid}: could not analyse {fn.short}')
     ctx.floor(rid, 'affine transform stores analysed', n, len(which))
     return out
+
+
+def coefficient_definitions(ctx: Ctx, e, attrs, bound_fields) -> Dict[str, dict]:
+    """Definitions of per-object coefficient attributes that every bound-writing routine maintains, read off the paths
+    of those routines (helpers of the class inlined, coordinate loops taken once):
+      {'kind': 'array', 'value': RF}            self.D = <whole-array expression of the bounds>
+      {'kind': 'elem', 'index': key, 'value': RF}  for i in range(N): self.D[i] = E(i)  /  self.D.append(E(i))
+    plus 'problems': stores that modify D after its definition (masks, single elements), definitions that differ
+    between routines, containers that inherit an integer dtype from the bounds (zeros_like ...)."""
+    memo = getattr(ctx, '_coef_defs', None)
+    if memo is None:
+        memo = ctx._coef_defs = {}
+    ck = tuple(sorted(attrs))
+    if ck in memo:
+        return memo[ck]
+    ex = ctx.explorer(unroll=1, inline=lambda f, st: f.cls is e.cls and f.name != '__init__')
+    out: Dict[str, dict] = {a: {'kind': None, 'problems': []} for a in attrs}
+    for name, m in sorted(e.cls.methods.items()):
+        if m.kind != 'function' or not m.param_names or (name.startswith('_') and name != '__init__'):
+            continue
+        selfv = var(m.param_names[0])
+        selfk = key_of(selfv)
+        try:
+            paths = C.normal_paths(ex.explore(m))
+        except AnalysisError:
+            continue
+        for p in paths:
+            evs = p.events
+            if not any(ev.kind == 'store' and ev.d['tkind'] == 'attr' and ev.d['field'] in bound_fields for ev in evs):
+                continue
+            # the path on which every coordinate loop made its (single) trip
+            tripped = {id(ev.node) for ev in evs if ev.kind == 'iter'}
+            if any(ev.kind == 'loopexit' and id(ev.node) not in tripped for ev in evs):
+                continue
+            for a in attrs:
+                d = {'kind': None, 'problems': []}
+                whole = [ev for ev in evs if ev.kind == 'store' and ev.d['tkind'] == 'attr' and ev.d['field'] == a
+                         and key_of(ev.d['base']) == selfk]
+                if not whole:
+                    continue
+                w = whole[-1]
+                iw = evs.index(w)
+                akey = C.strip_versions(key_of(attr(selfv, a)))
+
+                def on_attr(x) -> bool:
+                    return x is not None and (C.strip_versions(key_of(x)) == akey or key_of(x) == key_of(w.d['value']))
+                elems = [ev for ev in evs[iw + 1:] if ev.kind == 'store' and ev.d['tkind'] == 'sub' and on_attr(ev.d['base'])]
+                from ..index import mangle as _mangle
+
+                def recv_is_attr(ev) -> bool:
+                    fn_ = getattr(ev.node, 'func', None)
+                    return isinstance(fn_, ast.Attribute) and isinstance(fn_.value, ast.Attribute) and \
+                        isinstance(fn_.value.value, ast.Name) and _mangle(e.cls.name, fn_.value.attr) == a
+                apps = [ev for ev in evs[iw + 1:] if ev.kind == 'call' and ev.d['name'] == 'append' and
+                        recv_is_attr(ev) and ev.d['args']]
+                v0 = w.d['value']
+                v0a = v0.single_atom() if isinstance(v0, RF) else None
+                inherits = isinstance(v0a, tuple) and v0a and v0a[0] == 'call' and isinstance(v0a[1], str) and \
+                    v0a[1].split('.')[-1] in ('zeros_like', 'empty_like', 'ones_like', 'full_like') and \
+                    'dtype' not in (C.call_event_of_result(p, v0).d.get('kwargs') or {}
+                                    if C.call_event_of_result(p, v0) is not None else {})
+                loop_iters = [ev for ev in evs[iw + 1:] if ev.kind == 'iter']
+                defs = elems + apps
+                in_loop = []
+                for ev in defs:
+                    prev_it = [it for it in loop_iters if evs.index(it) < evs.index(ev)]
+                    if prev_it:
+                        in_loop.append((ev, prev_it[-1]))
+                if not defs and isinstance(v0, RF) and not (isinstance(v0a, tuple) and v0a and v0a[0] in ('call', 'display')):
+                    d.update(kind='array', value=normalise_arrays(v0, selfk))
+                elif len(defs) == 1 and len(in_loop) == 1:
+                    ev, it = in_loop[0]
+                    val = ev.d['value'] if ev.kind == 'store' else ev.d['args'][0]
+                    idx_ok = ev.kind == 'call' or key_of(ev.d['field']) == key_of(it.d['var'])
+                    if isinstance(val, RF) and idx_ok:
+                        d.update(kind='elem', index=key_of(it.d['var']), value=val)
+                        if inherits:
+                            d['problems'].append((w, f'{a} is created with the dtype of the bound vector it is shaped '
+                                                     f'after ({C.fmt(v0)}): for integer bounds the coefficients are '
+                                                     f'truncated when they are stored'))
+                    else:
+                        d['problems'].append((ev, f'the definition of {a} is not an element-wise expression'))
+                elif defs and isinstance(v0, RF) and not (isinstance(v0a, tuple) and v0a and v0a[0] in ('call', 'display')):
+                    d.update(kind='array', value=normalise_arrays(v0, selfk))
+                    for ev in defs:
+                        d['problems'].append((ev, f'{a} is modified after its definition '
+                                                  f'({ast.unparse(ev.node)[:50]}): it no longer equals '
+                                                  f'{C.fmt(d["value"])} for every coordinate'))
+                else:
+                    d['problems'].append((w, f'the definition of {a} could not be read'))
+                if d.get('value') is not None:
+                    # the routine stores copies of its bound parameters in the bound attributes first (R05.3 box-copied
+                    # clause): read the parameters as those attributes
+                    pm = {}
+                    for bname in ('lowerBoundOfFloatVariables', 'upperBoundOfFloatVariables'):
+                        if bname in m.param_names:
+                            pm[('var', bname)] = C.strip_versions(key_of(attr(selfv, e.backing_field(bname))))
+                    v_ = normalise_arrays(C.strip_rf(d['value']), C.strip_versions(selfk))
+                    d['value'] = C.strip_rf(C.subst_rf(C.strip_rf(v_), pm)) if pm else C.strip_rf(v_)
+                prev = out[a]
+                # one readable definition is kept (the routines that maintain the attribute go through one helper in
+                # practice); problems found on any of them are reported once
+                if prev['kind'] is None and not prev['problems']:
+                    out[a] = d
+                else:
+                    if prev['kind'] is None and d['kind'] is not None:
+                        d['problems'] = prev['problems'] + [x for x in d['problems']
+                                                            if x[1] not in [y[1] for y in prev['problems']]]
+                        out[a] = d
+                    else:
+                        prev['problems'] += [x for x in d['problems'] if x[1] not in [y[1] for y in prev['problems']]]
+    memo[ck] = out
+    return out
+
+
+def _generic_index(d) -> RF:
+    if d['kind'] == 'elem':
+        return C.subst_rf(d['value'], {d['index']: ('coef-index',)})
+    return d['value']
+
+
+def expand_coefficients(ctx: Ctx, rid: str, fn: FuncInfo, got, selfv):
+    """Rewrite maintained coefficient attributes in `got` into their definitions over the bounds (reporting what is
+    wrong with the definitions, if anything).  Returns the rewritten value, or `got` unchanged."""
+    e = evo_of(ctx)
+    if not isinstance(got, RF):
+        return got
+    selfk_ = key_of(selfv)
+    scr_ = set(e._scratch_attrs_of(e.opt('fwd', 'descent'))) if e.opt('fwd', 'descent') is not None else set()
+    bfs = {e.backing_field('upperBoundOfFloatVariables'), e.backing_field('lowerBoundOfFloatVariables')}
+    extra = {a[2] for a in C.atoms_deep(got) if isinstance(a, tuple) and len(a) >= 3 and a[0] == 'attr'
+             and C.strip_versions(a[1]) == C.strip_versions(selfk_) and isinstance(a[2], str)
+             and a[2] not in bfs and a[2] not in scr_ and a[2] != e.dim_field}
+    if not extra or not _maintained_with_bounds(ctx, e, extra, bfs):
+        return got
+    defs = coefficient_definitions(ctx, e, extra, bfs)
+    mapping = {}
+    g = C.strip_rf(got)
+    for a in sorted(extra):
+        d = defs.get(a) or {'kind': None, 'problems': []}
+        for ev, why in d['problems']:
+            ctx.fail(rid, ev.func.short, ev.loc(), f'{why} - {fn.short} maps the coordinate with it, so the map is no '
+                                                   f'longer y*(U-L) + (U+L)/2 (or its inverse) for every box',
+                     key=f'{rid}::{ev.func.short}::coefficient::{a}')
+        if d['kind'] is None:
+            continue
+        akey = C.strip_versions(key_of(attr(selfv, a)))
+        for at in C.atoms_deep(g):
+            if at == akey and d['kind'] == 'array':
+                mapping[at] = C.strip_versions(key_of(C.strip_rf(d['value']))) if C.strip_rf(d['value']).single_atom() \
+                    is not None else C.strip_rf(d['value']).key()
+            elif isinstance(at, tuple) and len(at) == 3 and at[0] == 'sub' and at[1] == akey:
+                if d['kind'] == 'elem':
+                    v = C.strip_rf(C.subst_rf(C.strip_rf(d['value']), {C.strip_versions(d['index']): at[2]}))
+                else:
+                    # element of a whole-array definition: the arrays of the bounds read at the same index
+                    v = C.strip_rf(d['value'])
+                    arrs = {x for x in v.atoms() if isinstance(x, tuple) and len(x) == 3 and x[0] == 'attr'}
+                    v = C.subst_rf(v, {x: ('sub', x, at[2]) for x in arrs})
+                mapping[at] = v.key() if v.single_atom() is None else v.single_atom()
+    if mapping:
+        for _ in range(3):
+            g = C.strip_rf(C.subst_rf(g, mapping))
+        return g
+    return got
+
+
+def refuse_maintained_coefficients(ctx: Ctx, rid: str, fn: FuncInfo, got, selfv):
+    """If `got` is written in terms of coefficient attributes that every bound-writing routine maintains, the map is
+    undecided for this template (exit 2) rather than wrong."""
+    e = evo_of(ctx)
+    if not isinstance(got, RF):
+        return
+    selfk_ = key_of(selfv)
+    scr_ = set(e._scratch_attrs_of(e.opt('fwd', 'descent'))) if e.opt('fwd', 'descent') is not None else set()
+    bfs = {e.backing_field('upperBoundOfFloatVariables'), e.backing_field('lowerBoundOfFloatVariables')}
+    extra = {a[2] for a in C.atoms_deep(got) if isinstance(a, tuple) and len(a) >= 3 and a[0] == 'attr'
+             and C.strip_versions(a[1]) == C.strip_versions(selfk_) and isinstance(a[2], str)
+             and a[2] not in bfs and a[2] not in scr_ and a[2] != e.dim_field}
+    if extra and _maintained_with_bounds(ctx, e, extra, bfs):
+        raise AnalysisError(f'{rid}: {fn.short} maps the coordinate with coefficients kept in {sorted(extra)}; every '
+                            f'routine that rewrites the bounds rewrites them too, but their definition is not readable '
+                            f'by the affine-map template: undecided')
+
+
+def _maintained_with_bounds(ctx: Ctx, e, attrs, bound_fields) -> bool:
+    """Every public routine of the evolvent (constructor included) that stores a bound attribute stores each of
+    `attrs` later on the same path (directly or in a helper of the class)."""
+    ex = ctx.explorer(unroll=1, inline=lambda f, st: f.cls is e.cls and f.name != '__init__')
+    seen_writer = False
+    for name, m in sorted(e.cls.methods.items()):
+        if m.kind != 'function' or not m.param_names:
+            continue
+        if name.startswith('_') and name != '__init__':
+            continue
+        selfk = key_of(var(m.param_names[0]))
+        try:
+            paths = C.normal_paths(ex.explore(m))
+        except AnalysisError:
+            return False
+        for p in paths:
+            evs = p.events
+            last_b = max([i for i, ev in enumerate(evs) if ev.kind == 'store' and ev.d['tkind'] == 'attr' and
+                          ev.d['field'] in bound_fields], default=None)
+            if last_b is None:
+                continue
+            seen_writer = True
+            for a in attrs:
+                if not any(ev.kind == 'store' and ev.d['tkind'] == 'attr' and ev.d['field'] == a
+                           for ev in evs[last_b + 1:]):
+                    return False
+    return seen_writer
 
 
 def solver_evolvent_constructions(ctx: Ctx):
